@@ -5,7 +5,7 @@ CXX = g++
 INSTR = -fsanitize=thread --param tsan-instrument-func-entry-exit=0
 REPO_CXXFLAGS = -O1 -g -DNDEBUG -fno-omit-frame-pointer $(INSTR) -I$(REPO)/include -w
 HARN_CXXFLAGS = -O1 -g -DNDEBUG -fno-omit-frame-pointer $(INSTR) -I$(B)/shadow -I$(REPO)/include -I$(REPO)/src -Isim -fno-access-control -w
-SIM_CXXFLAGS = -O2 -g -fno-omit-frame-pointer -Isim -Wall -Wno-unused-function
+SIM_CXXFLAGS = -O2 -g -fno-gnu-unique -fno-omit-frame-pointer -Isim -Wall -Wno-unused-function
 LDFLAGS = -no-pie -rdynamic -lpthread -lrt -ldl
 
 REPO_SRCS := $(wildcard $(REPO)/src/*.cpp) $(wildcard $(REPO)/src/*/*.cpp)
@@ -43,7 +43,7 @@ $(B)/h/%.o: harness/%.cpp $(B)/shadow/nstd/Base.hpp sim/wrap.syms
 # linker can never merge an instrumented std:: template instance from a harness into simulator code (or vice versa).
 $(B)/simrt.o: $(SIM_OBJS) Makefile
 	ld -r --force-group-allocation -o $@ $(filter %.o,$^)
-	nm $@ | awk '$$2 ~ /^[WV]$$/ {print $$3}' | sort -u > $(B)/simrt.weak
+	nm $@ | awk '$$2 ~ /^[WVu]$$/ {print $$3}' | sort -u > $(B)/simrt.weak
 	objcopy --localize-symbols=$(B)/simrt.weak $@
 
 # harnesses that #include a repo .cpp (for access to private state) must not link the repo's own object of that file
